@@ -19,7 +19,8 @@ Fixpoint strs_eqb (a b : list string) : bool :=
 Definition node_local (pr : prog) (n : nrec) : string := match nr_at n with GNamed id => local_name_of pr id | _ => "" end.
 
 Definition find_named (pr : prog) (a : ana_obs) (k : akind) (dart_name : string) : list nrec :=
-  filter (fun n => akind_eqb (nr_kind n) k && String.eqb (title (node_local pr n)) dart_name) (ao_nodes a).
+  filter (fun n => akind_eqb (nr_kind n) k &&
+                   String.eqb (if akind_eqb k KdStruct then dart_class_name pr n else title (node_local pr n)) dart_name) (ao_nodes a).
 
 (** a generic instantiation has a bracket in its id: the text readers cannot tell instantiations apart *)
 Definition ambiguous (l : list nrec) : bool :=
